@@ -104,10 +104,18 @@ ResOK(e) == res = e.res \/ (HasAbsent /\ res \in {"RelateException", "UnrelateEx
 
 \* the schema of a loaded metamodel: classes with ordered typed attributes, unique
 \* identifiers, associations with keys, multiplicity, conditionality and phrases
+\* A class whose CREATE TABLE statement has not been accepted when the metamodel is built (e.undecl[c], given by the
+\* schedule: "pos" / "named" = the first accepted row of the class is a positional / named insert, "none" = no row) is
+\* inferred from that row: attributes _0, _1, ... (or the names given) with the type guessed from each value.
+Undecl(e, c) == IF "undecl" \in DOMAIN e /\ c \in DOMAIN e.undecl THEN e.undecl[c] ELSE "declared"
+DeclAttrs(c) == [j \in DOMAIN Attrs[c] |-> <<Attrs[c][j].n, Attrs[c][j].t>>]
+ExpAttrs(e, c) == CASE Undecl(e, c) = "pos" -> [j \in DOMAIN Attrs[c] |-> <<"_" \o ToString(j - 1), Attrs[c][j].t>>]
+                    [] Undecl(e, c) = "none" -> <<<<"?", "?">>>>
+                    [] OTHER -> DeclAttrs(c)
 SchemaOK(e) ==
     e.schema.extra = <<"-">> \/
     /\ e.schema.extra = <<>>
-    /\ \A c \in ClassSet : /\ e.schema.attrs[c] = [j \in DOMAIN Attrs[c] |-> <<Attrs[c][j].n, Attrs[c][j].t>>]
+    /\ \A c \in ClassSet : /\ e.schema.attrs[c] = ExpAttrs(e, c)
                            /\ {e.schema.uniques[c][j] : j \in DOMAIN e.schema.uniques[c]}
                                 = {<<Uniques[c][j].name, Uniques[c][j].attrs>> : j \in DOMAIN Uniques[c]}
                            /\ Len(e.schema.uniques[c]) = Len(Uniques[c])
